@@ -14,10 +14,13 @@ CONSTANTS
     Callers,     \* concurrent callers
     Policy,      \* "rr" / "random" / "lt"
     UpdateSets,  \* the target sets Update may install
+    InitTargets, \* targets given to NewClient
+    MaxDirector, \* how often the Director hook changes its answer
     MaxUpdates, MaxFlips, MaxCalls, MaxFallbacks,
     Lats,        \* latency samples (scaled integers) observed by calls
     MaxLat,      \* the "unreachable" latency (clientLatency)
-    Dev
+    Dev,
+    DevForced    \* TRUE: a deviation in Dev is always taken (the deviated code), FALSE: it may be taken (trace validation)
 
 Deviations == { "StaleProbeReinserts",  \* a probe of a replaced target object re-inserts its address
                 "ListFromStaleMap",     \* Update leaves the old list in place
@@ -30,7 +33,7 @@ Deviations == { "StaleProbeReinserts",  \* a probe of a replaced target object r
                 "TimeoutLeaks",         \* timeout leaves the waiter in the table
                 "DetectNoWake" }        \* detector tick does not wake waiters
 ASSUME Dev \subseteq Deviations
-DevChoice(d) == IF d \in Dev THEN BOOLEAN ELSE {FALSE}
+DevChoice(d) == IF d \in Dev THEN (IF DevForced THEN {TRUE} ELSE BOOLEAN) ELSE {FALSE}
 NoAddr == "none"
 
 VARIABLES
@@ -51,29 +54,30 @@ VARIABLES
     probes,     \* probes in flight: set of <<addr, generation>>
     health,     \* health[a]: the address accepts connections
     director,   \* what the Director hook currently returns (NoAddr: empty string / no hook)
-    nupd, nflip, ncall, nfb,
+    nupd, nflip, ncall, nfb, ndir,
     \* ---- history ----
+    dflip,      \* toggles at every detector pass (lets properties speak about "a pass")
     rrHist,     \* addresses chosen by round robin since the list last changed
     probedSinceTick  \* a probe route was taken since Tick last elapsed
 
 vars == <<targets, gen, talive, lat, list, lastSet, pos, probeDue, waiters, cst, croute, cerr, cvia, closed, fallback,
-          probes, health, director, nupd, nflip, ncall, nfb, rrHist, probedSinceTick>>
+          probes, health, director, nupd, nflip, ncall, nfb, ndir, dflip, rrHist, probedSinceTick>>
 
 Range(s) == {s[i] : i \in 1..Len(s)}
 Perms(S) == {s \in [1..Cardinality(S) -> S] : \A i, j \in 1..Cardinality(S) : i # j => s[i] # s[j]}
 Min(S) == CHOOSE x \in S : \A y \in S : x <= y
 
 Init ==
-    /\ targets \in UpdateSets /\ gen = 0
+    /\ targets = InitTargets /\ gen = 0
     /\ talive = [a \in Addrs |-> FALSE]
     /\ lat = [a \in Addrs |-> MaxLat]
     /\ list = <<>> /\ lastSet = {} /\ pos = 0 /\ probeDue = TRUE
     /\ waiters = {} /\ cst = [k \in Callers |-> "idle"] /\ croute = [k \in Callers |-> NoAddr]
     /\ cerr = [k \in Callers |-> "none"] /\ cvia = [k \in Callers |-> "none"]
     /\ closed = FALSE /\ fallback = 0 /\ probes = {}
-    /\ health \in [Addrs -> BOOLEAN] /\ director = NoAddr
+    /\ health = [a \in Addrs |-> TRUE] /\ director = NoAddr /\ ndir = 0
     /\ nupd = 0 /\ nflip = 0 /\ ncall = 0 /\ nfb = 0
-    /\ rrHist = <<>> /\ probedSinceTick = FALSE
+    /\ rrHist = <<>> /\ probedSinceTick = FALSE /\ dflip = FALSE
 
 --------------------------------------------------------------------------------
 \* Update: new target objects (not alive, maximal latency), lists cleared.
@@ -87,25 +91,24 @@ Update(S, dStale) ==
     /\ lastSet' = IF dStale THEN lastSet ELSE {}
     /\ rrHist' = <<>>
     /\ UNCHANGED <<pos, probeDue, waiters, cst, croute, cerr, cvia, closed, fallback, probes, health, director,
-                   nflip, ncall, nfb, probedSinceTick>>
+                   nflip, ncall, nfb, ndir, dflip, probedSinceTick>>
 
 \* checkPending: with no fallback in force and a live list, every waiter is released
 Woken(ws) == [k \in Callers |-> IF k \in ws THEN "woken" ELSE cst[k]]
 
 \* detector tick: a probe is started for every target not marked alive; waiters are checked
-Detect(dNoWake) ==
-    /\ ~closed
+Detect(dNoWake) ==      \* (a pass already under way when Close is called still completes)
+    /\ dflip' = ~dflip
     /\ probes' = probes \cup {<<a, gen>> : a \in {x \in targets : ~talive[x]}}
     /\ IF fallback = 0 /\ list # <<>> /\ ~dNoWake
          THEN /\ cst' = Woken(waiters) /\ waiters' = {}
          ELSE UNCHANGED <<cst, waiters>>
     /\ UNCHANGED <<targets, gen, talive, lat, list, lastSet, pos, probeDue, croute, cerr, cvia, closed, fallback, health, director,
-                   nupd, nflip, ncall, nfb, rrHist, probedSinceTick>>
+                   nupd, nflip, ncall, nfb, ndir, rrHist, probedSinceTick>>
 
-\* check(t): the Ping has returned; under the lock the target object is marked and the live list rebuilt
+\* check(t): the Ping has returned; (ProbeEffect: the critical section; ProbeDone: for a probe in flight) under the lock the target object is marked and the live list rebuilt
 \* from the *current* target map (in map iteration order: any order).
-ProbeDone(a, g, dReinsert, dNoWake) ==
-    /\ <<a, g>> \in probes
+ProbeEffect(a, g, dReinsert, dNoWake) ==
     /\ probes' = probes \ {<<a, g>>}
     /\ LET ok == health[a]
            cur == g = gen /\ a \in targets
@@ -126,7 +129,9 @@ ProbeDone(a, g, dReinsert, dNoWake) ==
                       ELSE UNCHANGED <<cst, waiters>>
             ELSE /\ list' = <<>> /\ lastSet' = {} /\ rrHist' = <<>>
                  /\ UNCHANGED <<pos, cst, waiters>>
-    /\ UNCHANGED <<targets, gen, probeDue, croute, cerr, cvia, closed, fallback, health, director, nupd, nflip, ncall, nfb, probedSinceTick>>
+    /\ UNCHANGED <<targets, gen, probeDue, croute, cerr, cvia, closed, fallback, health, director, nupd, nflip, ncall, nfb, ndir, dflip, probedSinceTick>>
+
+ProbeDone(a, g, dReinsert, dNoWake) == <<a, g>> \in probes /\ ProbeEffect(a, g, dReinsert, dNoWake)
 
 --------------------------------------------------------------------------------
 \* Routing (director()).
@@ -140,14 +145,14 @@ RouteClosed(k) ==
     /\ ncall' = ncall + 1
     /\ cst' = [cst EXCEPT ![k] = "done"] /\ cerr' = [cerr EXCEPT ![k] = "shutdown"]
     /\ UNCHANGED <<targets, gen, talive, lat, list, lastSet, pos, probeDue, waiters, croute, cvia, closed, fallback, probes, health,
-                   director, nupd, nflip, nfb, rrHist, probedSinceTick>>
+                   director, nupd, nflip, nfb, ndir, dflip, rrHist, probedSinceTick>>
 
 RouteDirector(k) ==
     /\ cst[k] = "idle" /\ ncall < MaxCalls /\ ~closed /\ fallback = 0 /\ director # NoAddr
     /\ ncall' = ncall + 1
     /\ Routed(k, director, "addr")
     /\ UNCHANGED <<targets, gen, talive, lat, list, lastSet, pos, probeDue, waiters, cerr, closed, fallback, probes, health,
-                   director, nupd, nflip, nfb, rrHist, probedSinceTick>>
+                   director, nupd, nflip, nfb, ndir, dflip, rrHist, probedSinceTick>>
 
 \* schedule(): the pick under the lock.  pr = TRUE: least-time probe.
 Pick(k, dNoAdv, dMax, dProbeAlways) ==
@@ -179,7 +184,7 @@ RouteList(k, d1, d2, d3) ==
     /\ cst[k] = "idle" /\ ncall < MaxCalls /\ ~closed /\ fallback = 0 /\ director = NoAddr /\ list # <<>>
     /\ ncall' = ncall + 1
     /\ Pick(k, d1, d2, d3)
-    /\ UNCHANGED <<targets, gen, talive, lat, list, lastSet, waiters, cerr, closed, fallback, probes, health, director, nupd, nflip, nfb>>
+    /\ UNCHANGED <<targets, gen, talive, lat, list, lastSet, waiters, cerr, closed, fallback, probes, health, director, nupd, nflip, nfb, ndir, dflip>>
 
 \* no live target (or a fallback in force): the caller registers as a waiter - unless the client was closed meanwhile
 RouteWait(k, dAfterClose) ==
@@ -190,7 +195,7 @@ RouteWait(k, dAfterClose) ==
     /\ cst' = [cst EXCEPT ![k] = "waiting"]
     /\ waiters' = waiters \cup {k}
     /\ UNCHANGED <<targets, gen, talive, lat, list, lastSet, pos, probeDue, croute, cerr, cvia, closed, fallback, probes, health, director,
-                   nupd, nflip, nfb, rrHist, probedSinceTick>>
+                   nupd, nflip, nfb, ndir, dflip, rrHist, probedSinceTick>>
 
 \* the woken caller schedules again (the list may have emptied meanwhile: ErrDial, reading R5)
 WokenPick(k, d1, d2, d3) ==
@@ -199,7 +204,7 @@ WokenPick(k, d1, d2, d3) ==
          THEN Pick(k, d1, d2, d3) /\ UNCHANGED cerr
          ELSE /\ cst' = [cst EXCEPT ![k] = "done"] /\ cerr' = [cerr EXCEPT ![k] = "dial"]
               /\ UNCHANGED <<croute, cvia, pos, probeDue, rrHist, probedSinceTick>>
-    /\ UNCHANGED <<targets, gen, talive, lat, list, lastSet, waiters, closed, fallback, probes, health, director, nupd, nflip, ncall, nfb>>
+    /\ UNCHANGED <<targets, gen, talive, lat, list, lastSet, waiters, closed, fallback, probes, health, director, nupd, nflip, ncall, nfb, ndir, dflip>>
 
 \* DialTimeout elapsed while waiting
 Timeout(k, dLeak) ==
@@ -207,7 +212,7 @@ Timeout(k, dLeak) ==
     /\ cst' = [cst EXCEPT ![k] = "done"] /\ cerr' = [cerr EXCEPT ![k] = "timeout"]
     /\ waiters' = IF dLeak THEN waiters ELSE waiters \ {k}
     /\ UNCHANGED <<targets, gen, talive, lat, list, lastSet, pos, probeDue, croute, cvia, closed, fallback, probes, health, director,
-                   nupd, nflip, ncall, nfb, rrHist, probedSinceTick>>
+                   nupd, nflip, ncall, nfb, ndir, dflip, rrHist, probedSinceTick>>
 
 \* woken by Close: ErrShutdown
 Close(dNoWake) ==
@@ -218,7 +223,7 @@ Close(dNoWake) ==
             /\ cerr' = [k \in Callers |-> IF k \in waiters THEN "shutdown" ELSE cerr[k]]
             /\ waiters' = {}
     /\ UNCHANGED <<targets, gen, talive, lat, list, lastSet, pos, probeDue, croute, cvia, fallback, probes, health, director,
-                   nupd, nflip, ncall, nfb, rrHist, probedSinceTick>>
+                   nupd, nflip, ncall, nfb, ndir, dflip, rrHist, probedSinceTick>>
 
 \* the call through the transport returned; on the multi-target path the estimate is updated (atomics, outside the lock)
 CallDone(k, sample) ==
@@ -234,38 +239,44 @@ CallDone(k, sample) ==
                                                ELSE (lat[a] * 4 + sample) \div 5]
             ELSE UNCHANGED <<talive, lat>>
     /\ UNCHANGED <<targets, gen, list, lastSet, pos, probeDue, waiters, croute, cvia, closed, fallback, probes, health, director,
-                   nupd, nflip, ncall, nfb, rrHist, probedSinceTick>>
+                   nupd, nflip, ncall, nfb, ndir, dflip, rrHist, probedSinceTick>>
 
 Again(k) ==      \* the caller starts over with a new call
     /\ cst[k] = "done"
     /\ cst' = [cst EXCEPT ![k] = "idle"] /\ cerr' = [cerr EXCEPT ![k] = "none"]
     /\ croute' = [croute EXCEPT ![k] = NoAddr] /\ cvia' = [cvia EXCEPT ![k] = "none"]
     /\ UNCHANGED <<targets, gen, talive, lat, list, lastSet, pos, probeDue, waiters, closed, fallback, probes, health, director,
-                   nupd, nflip, ncall, nfb, rrHist, probedSinceTick>>
+                   nupd, nflip, ncall, nfb, ndir, dflip, rrHist, probedSinceTick>>
 
 --------------------------------------------------------------------------------
 \* Environment.
 FallbackBegin ==
     /\ nfb < MaxFallbacks /\ ~closed
-    /\ nfb' = nfb + 1 /\ fallback' = fallback + 1
+    /\ nfb' = nfb + 1 /\ fallback' = fallback + 1 /\ ndir' = ndir /\ dflip' = dflip
     /\ UNCHANGED <<targets, gen, talive, lat, list, lastSet, pos, probeDue, waiters, cst, croute, cerr, cvia, closed, probes, health,
                    director, nupd, nflip, ncall, rrHist, probedSinceTick>>
 FallbackEnd ==
     /\ fallback > 0
     /\ fallback' = fallback - 1
     /\ UNCHANGED <<targets, gen, talive, lat, list, lastSet, pos, probeDue, waiters, cst, croute, cerr, cvia, closed, probes, health,
-                   director, nupd, nflip, ncall, nfb, rrHist, probedSinceTick>>
+                   director, nupd, nflip, ncall, nfb, ndir, dflip, rrHist, probedSinceTick>>
 Flip(a) ==
     /\ nflip < MaxFlips
     /\ nflip' = nflip + 1
     /\ health' = [health EXCEPT ![a] = ~@]
     /\ UNCHANGED <<targets, gen, talive, lat, list, lastSet, pos, probeDue, waiters, cst, croute, cerr, cvia, closed, fallback, probes,
-                   director, nupd, ncall, nfb, rrHist, probedSinceTick>>
+                   director, nupd, ncall, nfb, ndir, dflip, rrHist, probedSinceTick>>
+SetDirector(a) ==     \* the Director hook starts answering a (NoAddr: the empty string)
+    /\ ndir < MaxDirector /\ a # director
+    /\ ndir' = ndir + 1 /\ dflip' = dflip
+    /\ director' = a
+    /\ UNCHANGED <<targets, gen, talive, lat, list, lastSet, pos, probeDue, waiters, cst, croute, cerr, cvia, closed, fallback, probes, health,
+                   nupd, nflip, ncall, nfb, rrHist, probedSinceTick>>
 TickElapsed ==
     /\ Policy = "lt" /\ ~probeDue
     /\ probeDue' = TRUE /\ probedSinceTick' = FALSE
     /\ UNCHANGED <<targets, gen, talive, lat, list, lastSet, pos, waiters, cst, croute, cerr, cvia, closed, fallback, probes, health,
-                   director, nupd, nflip, ncall, nfb, rrHist>>
+                   director, nupd, nflip, ncall, nfb, ndir, dflip, rrHist>>
 
 LibraryStep ==
     \/ \E d \in DevChoice("DetectNoWake") : Detect(d)
@@ -284,6 +295,7 @@ Next ==
     \/ \E k \in Callers : \E s \in Lats : CallDone(k, s)
     \/ \E k \in Callers : Again(k)
     \/ FallbackBegin \/ \E a \in Addrs : Flip(a)
+    \/ \E a \in Addrs \cup {NoAddr} : SetDirector(a)
     \/ TickElapsed
 
 Spec == Init /\ [][Next]_vars
@@ -318,6 +330,10 @@ DeadIsMax == \A a \in targets : (~talive[a] /\ <<a, gen>> \notin probes) => (lat
 NoWaitAfterClose == closed => waiters = {}
 WaiterOwed == \A k \in Callers : (cst[k] = "waiting") => (k \in waiters)    \* until woken, timed out or closed
 WaitersAreWaiting == \A k \in waiters : cst[k] = "waiting"
+\* a detector pass releases the callers waiting while a target is live and no fallback is in force
+DetectReleases == [][dflip' # dflip => ((fallback = 0 /\ list # <<>>) => waiters' = {})]_vars
+\* so does the completion of a probe that leaves a live list
+ProbeReleases == [][(probes' # probes /\ dflip' = dflip /\ Cardinality(probes') < Cardinality(probes)) => ((fallback = 0 /\ list' # <<>>) => waiters' = {})]_vars
 ErrKinds == \A k \in Callers : cst[k] = "done" => cerr[k] \in {"none", "shutdown", "timeout", "dial"}
 ClosedFailsAtOnce == [][\A k \in Callers : (closed /\ cst[k] = "idle" /\ cst'[k] # "idle") => (cst'[k] = "done" /\ cerr'[k] = "shutdown")]_vars
 \* liveness (fair detector/probes): waiters are released once a target is live and no fallback is in force; Close releases them
